@@ -316,6 +316,8 @@ def run_case(ctx, case):
         """__call__ on a fresh DataSet; returns classes or None"""
         site = M + "__call__"
         before = np.asarray(cobj.get_calculated_classes_testset(), dtype=float)
+        sf0 = np.array(cobj.get_scale_factor(), dtype=float, copy=True)
+        rg0 = [np.array(x, dtype=float, copy=True) for x in cobj.get_dataset_range()]
         Qin = Q.copy()                                        # the array the "caller" owns and may evaluate again
         ds = cobj.get_learning_data() if from_learning else DataSet((Qin, lab.copy()), name="Q")
         I = np.where(inside)[0]
@@ -358,6 +360,18 @@ def run_case(ctx, case):
         after = np.asarray(cobj.get_calculated_classes_testset(), dtype=float)
         ctx.check("B.history.stable", len(after) == len(before) and bool(np.all(after == before)), site, "testset-classes-changed-by-call",
                   "calculated test classes changed by __call__")
+        if not from_learning:
+            # the caller goes on working with THEIR data set (it was scaled in place by the evaluation): reverting its scaling must not reach into the
+            # classifier -- the scaling fixed at learning time stays what it was (missed seed C19_7: the evaluated set aliased the classifier's factor array)
+            try:
+                with capture():
+                    ds.revert_scaling()
+            except Exception:  # noqa  (reverting the caller's own set is not under test; only its effect on the classifier is)
+                pass
+            sf1 = np.array(cobj.get_scale_factor(), dtype=float)
+            rg1 = [np.array(x, dtype=float) for x in cobj.get_dataset_range()]
+            ctx.check("B.scale.fixed", sf1.shape == sf0.shape and bool(np.array_equal(sf1, sf0)) and all(np.array_equal(u, v) for u, v in zip(rg0, rg1)), site,
+                      "learned-scaling-changed-by-callers-set", "scale factor %s -> %s after the caller reverted the scaling of the evaluated data set" % (sf0, sf1))
         return got_c, D, P
 
     def do_evaluate(site, wcl):
